@@ -4,7 +4,7 @@ import json, os
 V = os.path.dirname(os.path.dirname(os.path.abspath(__file__)))
 CHECKS = {
  "C01": ("seqx", "4 C01", "explicit-state BFS over request/clock/provider/fault histories on the real handler and stores (memory, Redis) with an abstract-session oracle",
-         "Every OK verdict in every explored history (depth 5 quick / 6 thorough; every env call of every check failing before/after/crash, pairs in thorough) is justified by the ghost store + provider ledger and a fault-free check.",
+         "Every OK verdict in every explored history (quick: depth 5, every env call of every check failing before/after/crash; thorough: depth 6 with single faults plus depth 4 with all pairs of faults) is justified by the ghost store + provider ledger and a fault-free check.",
          "Handler-level (Process on a per-check handler, as Check builds it); session time-outs 0; alphabet-bounded."),
  "C02": ("seqx", "4 C02", "explicit-state BFS over login/refresh histories with a 37-element adversarial ID-token grammar as provider answers; independent stdlib JWS verifier as oracle",
          "Every SetTokenResponse in every explored history stores a token the simulated provider returned in that check (or the one already bound) that passes an independent signature/audience/nonce validator; every OK forwards exactly the bound tokens under the configured header/preamble.",
